@@ -379,7 +379,7 @@ func init() {
 			"(roles inferred from Enqueue/Pause/Resume): single-consumer election by CAS, release-then-recheck with fresh counter loads on every exit, " +
 			"publish-before-wake, counter pairing with pops, exactly-one hand-off of the popped value, pause gate re-evaluated after every handler call, " +
 			"re-arm predicate implies eligible work (no spin), Resume wakes, atomics-only access. Each is a necessary condition of the property, checked on every CFG path of the analysed functions. " +
-			"NOT decided: that these shapes suffice under every interleaving (linearizability of the handshake is a schedule property), nor run-time delivery.",
+			"(R10 = C02.R1) the queue itself loses and duplicates nothing under concurrent senders: the ring's storage, indices and descriptor pointer are touched only under the queue lock. NOT decided: that these shapes suffice under every interleaving (linearizability of the handshake is a schedule property), nor run-time delivery.",
 		Assumptions: []string{"sync/atomic operations are sequentially consistent (Go memory model)", "the queue's Push/Pop are linearizable (C02.R1 checks the lock discipline)"},
 		Rules: []Rule{
 			{ID: "C01.R0", Min: 1, Desc: "mailbox roles resolved", Fn: c01Roles},
